@@ -2,9 +2,12 @@ import SciVerif.Tie.Atom
 import SciVerif.Generated.Skel
 import SciVerif.Props.C20
 import SciVerif.Tie.C20Sem
+import SciVerif.Tie.Pins
 /-! Tie A for C20: which ordering algorithm `sortAuditInfosByStartTime` uses, and the shape of
 `extractAuditInfosByID`. -/
 namespace SciVerif.Tie
+-- functions the model relies on without an obligation of its own naming them (pinned by bin/mkpins):
+-- PIN-ALSO: Cmd.mergeStringAuditInfoMaps Cmd.auditInfoToHTML Cmd.auditInfoToBash Cmd.auditInfoToTeX Cmd.formatTaskHTML
 open SciVerif.Generated SciVerif.Report
 
 theorem generated_sort_sem : sortSem = .sliceSort := by decide
@@ -23,7 +26,23 @@ theorem c20_on_source (t : AT) (rs : List Rec) (hperm : rs.Perm (vals (extract t
   rw [generated_sort_sem]
   exact ⟨(c20_report_lists_every_task_once t rs hperm).1, (c20_report_lists_every_task_once t rs hperm).2.2⟩
 
+
+-- BEGIN PINS (written by bin/mkpins; do not edit by hand)
+/-- the Go functions this property's model and obligations were written against have exactly the
+pinned skeletons (SHA-256 prefix of the atom list) -/
+theorem pinned_skeletons_c20 :
+    pinsOk
+    [("Cmd.auditInfoToBash", "f6e390e820bddca3"),
+     ("Cmd.auditInfoToHTML", "c3cd59286ae045b7"),
+     ("Cmd.auditInfoToTeX", "941e026968db81bd"),
+     ("Cmd.extractAuditInfosByID", "fd28dc4ce98be517"),
+     ("Cmd.formatTaskHTML", "9fb5b5a88d6120b2"),
+     ("Cmd.mergeStringAuditInfoMaps", "d031cc7d0e121947"),
+     ("Cmd.sortAuditInfosByStartTime", "e0c98edf32a42d1b")] = true := by decide
+-- END PINS
+
 end SciVerif.Tie
+#print axioms SciVerif.Tie.pinned_skeletons_c20
 #print axioms SciVerif.Tie.generated_sort_sem
 #print axioms SciVerif.Tie.generated_extract_shape
 #print axioms SciVerif.Tie.c20_on_source
